@@ -197,7 +197,8 @@ def run(out, tier, rng, work):
                 'PDU2, request, TP RTS/CTS/abort/EOMA/DT, FD.TP RTS/CTS/abort/EOMS/DT, multi-PG) x 4 stack shapes x both layers; all 16 '
                 'can.Message flag combinations through the real MessageListener; bystander scenarios (third stack observing foreign '
                 'transfers); oracle: fired callbacks == delivery rule, unaccepted frames cause no delivery / no frame / no state; J1939-21 '
-                'handler logs replayed on the Coq model; non-trivial = the frame was dispatched (accepted) or a filter decision was exercised')
+                'handler logs replayed on the Coq model; non-trivial = the frame was dispatched (accepted) or a filter decision was exercised'
+                ' Frames with data page 1 included.')
     out.assumptions = ['A1-A6 of DESIGN.md section 3']
     C.std_proof_stage(out, 'C05', FILES)
     dests = sorted(set([0, 1, 0x3F, 0x40, 0x41, 0x42, 0x43, 0x44, 0x45, 0x46, 0x47, 0x48, 0x7F, 0x80, 0xEA, 0xFD, 0xFE, 0xFF] + [rng.randrange(256) for _ in range(25)])) if tier == 'quick' else list(range(256))
